@@ -30,34 +30,34 @@ theorem containsZeroByte_eq (b0 b1 b2 b3 b4 b5 b6 b7 : UInt8) :
     containsZeroByte (le64 b0 b1 b2 b3 b4 b5 b6 b7) =
       (b0 == 0 || b1 == 0 || b2 == 0 || b3 == 0 || b4 == 0 || b5 == 0 || b6 == 0 || b7 == 0) := by
   unfold containsZeroByte LO HI le64
-  bv_decide
+  bv_decide (config := { timeout := 300 })
 
 /-- `contains_zero_byte(x ^ repeat_byte(c))` : some byte equals `c` -/
 theorem containsByte_eq (b0 b1 b2 b3 b4 b5 b6 b7 c : UInt8) :
     containsZeroByte (le64 b0 b1 b2 b3 b4 b5 b6 b7 ^^^ repeatByte c) =
       (b0 == c || b1 == c || b2 == c || b3 == c || b4 == c || b5 == c || b6 == c || b7 == c) := by
   unfold containsZeroByte repeatByte LO HI le64
-  bv_decide
+  bv_decide (config := { timeout := 300 })
 
 theorem notWsMask_eq (b0 b1 b2 b3 b4 b5 b6 b7 : UInt8) :
     notWsMask (le64 b0 b1 b2 b3 b4 b5 b6 b7) =
       mask8 (!(b0 == 9 || b0 == 10)) (!(b1 == 9 || b1 == 10)) (!(b2 == 9 || b2 == 10)) (!(b3 == 9 || b3 == 10))
             (!(b4 == 9 || b4 == 10)) (!(b5 == 9 || b5 == 10)) (!(b6 == 9 || b6 == 10)) (!(b7 == 9 || b7 == 10)) := by
   unfold notWsMask repeatByte LO le64 mask8 hb
-  bv_decide
+  bv_decide (config := { timeout := 300 })
 
 theorem quoteMask_eq (b0 b1 b2 b3 b4 b5 b6 b7 : UInt8) :
     quoteMask (le64 b0 b1 b2 b3 b4 b5 b6 b7) =
       mask8 (b0 == 34) (b1 == 34) (b2 == 34) (b3 == 34) (b4 == 34) (b5 == 34) (b6 == 34) (b7 == 34) := by
   unfold quoteMask repeatByte LO le64 mask8 hb
-  bv_decide
+  bv_decide (config := { timeout := 300 })
 
 theorem countChunk_eq (b0 b1 b2 b3 b4 b5 b6 b7 b : UInt8) :
     countChunk (le64 b0 b1 b2 b3 b4 b5 b6 b7) b =
       ind (b0 == b) + ind (b1 == b) + ind (b2 == b) + ind (b3 == b) + ind (b4 == b) + ind (b5 == b) +
         ind (b6 == b) + ind (b7 == b) := by
   unfold countChunk sumUsize bytewiseEqual repeatByte LO le64 ind
-  bv_decide
+  bv_decide (config := { timeout := 300 })
 
 /-! ### finite case analysis -/
 
